@@ -576,6 +576,180 @@ fn ghost_faults(ctx: &Ctx, rng: &mut Rng, s: &SizeInfo, b: usize, faults: &mut V
     true
 }
 
+fn gf_pow(gf: &crate::gf::Gf, x: u8, j: usize) -> u8 {
+    if x == 0 {
+        return if j == 0 { 1 } else { 0 };
+    }
+    gf.exp[(gf.log[x as usize] as usize * j) % 255]
+}
+
+/// "Phantom" damage: `e` real errors in one block whose first L syndromes coincide with the syndromes of a
+/// different, smaller error pattern (the phantom: u < e locators anywhere in the field, including positions
+/// outside the shortened block and alpha^0). The locator search first locks onto the phantom, sees zero
+/// discrepancies for a stretch (consecutive singular leading minors, wide singular jumps) and only then meets
+/// the truth. Values are obtained by solving a linear system, so any weight up to t (in radius) or beyond works.
+fn phantom_faults(ctx: &Ctx, rng: &mut Rng, s: &SizeInfo, b: usize, in_radius: bool, faults: &mut Vec<Fault>) -> bool {
+    if !ctx.gf_ok[s.idx] {
+        return false;
+    }
+    let gf = &ctx.gf;
+    let t = s.t();
+    let pos = s.block_positions(b);
+    let nb = pos.len();
+    let e = if in_radius {
+        if t < 3 {
+            return false;
+        }
+        if rng.chance(1, 2) { t } else { rng.range(3, t) }
+    } else {
+        rng.range(t + 1, (t + 3).min(nb).min(s.k))
+    };
+    let u = rng.range(1, ((e - 1) / 2).min(3).max(1));
+    // prefix length: at least 2u+1 so that the phantom is fully "believed", at most e (unknowns) and k
+    let lmax = e.min(s.k);
+    if 2 * u + 1 > lmax {
+        return false;
+    }
+    let l = match rng.below(3) {
+        0 => lmax,
+        1 => 2 * u + 1,
+        _ => rng.range(2 * u + 1, lmax),
+    };
+    // phantom locators and values
+    let mut px: Vec<u8> = Vec::new();
+    while px.len() < u {
+        let x = match rng.below(4) {
+            0 => 1u8, // alpha^0: the last EC codeword of the block
+            1 => gf.alpha_pow(rng.range(nb, 254)), // outside the shortened block
+            _ => gf.alpha_pow(rng.below(nb)),
+        };
+        if !px.contains(&x) {
+            px.push(x);
+        }
+    }
+    let pc: Vec<u8> = (0..u).map(|_| rng.nonzero_byte()).collect();
+    // real positions
+    let region = pick_region(rng);
+    let chosen = pick_block_positions(rng, s, b, e, region, PosPattern::Uniform);
+    if chosen.len() < l {
+        return false;
+    }
+    let e = chosen.len();
+    let xs: Vec<u8> = chosen
+        .iter()
+        .map(|p| gf.alpha_pow(nb - 1 - pos.iter().position(|q| q == p).unwrap()))
+        .collect();
+    let mut ys = vec![0u8; e];
+    for y in ys.iter_mut().skip(l) {
+        *y = rng.nonzero_byte();
+    }
+    let mut a = vec![0u8; l * l];
+    let mut rhs = vec![0u8; l];
+    for j in 0..l {
+        for i in 0..l {
+            a[j * l + i] = gf_pow(gf, xs[i], j + 1);
+        }
+        let mut acc = 0u8;
+        for q in 0..u {
+            acc ^= gf.mul(pc[q], gf_pow(gf, px[q], j + 1));
+        }
+        for i in l..e {
+            acc ^= gf.mul(ys[i], gf_pow(gf, xs[i], j + 1));
+        }
+        rhs[j] = acc;
+    }
+    match gf.solve(&a, &rhs, l) {
+        Some(sol) => ys[..l].copy_from_slice(&sol),
+        None => return false,
+    }
+    for (p, y) in chosen.iter().zip(ys.iter()) {
+        if *y != 0 {
+            faults.push(Fault::new("cw_phantom", Op::CwXor { pos: *p as u32, mask: *y }));
+        }
+    }
+    true
+}
+
+/// A crafted syndrome vector realised by changing only the EC part of one block (every syndrome vector is
+/// realisable that way): the syndromes of a genuine v-error pattern (v < t), continued by their own order-v
+/// recurrence, with one or two discrepancies injected at indices around the decoder's natural boundaries
+/// (2v, t, t+v, k-v, k). Far outside the radius in Hamming terms, yet almost consistent for an LFSR-synthesis
+/// decoder.
+fn syndrome_faults(ctx: &Ctx, rng: &mut Rng, s: &SizeInfo, b: usize, faults: &mut Vec<Fault>) -> bool {
+    if !ctx.gf_ok[s.idx] {
+        return false;
+    }
+    let gf = &ctx.gf;
+    let t = s.t();
+    let k = s.k;
+    let pos = s.block_positions(b);
+    let nb = pos.len();
+    if t < 2 {
+        return false;
+    }
+    let v = rng.range(1, t - 1);
+    // genuine pattern: v distinct locators inside the block, values non-zero
+    let idxs = rng.sample_distinct(nb, v);
+    let xs: Vec<u8> = idxs.iter().map(|i| gf.alpha_pow(nb - 1 - *i)).collect();
+    let ys: Vec<u8> = (0..v).map(|_| rng.nonzero_byte()).collect();
+    let mut syn: Vec<u8> = (1..=k)
+        .map(|j| {
+            let mut acc = 0u8;
+            for i in 0..v {
+                acc ^= gf.mul(ys[i], gf_pow(gf, xs[i], j));
+            }
+            acc
+        })
+        .collect();
+    // recurrence S_{j+v} = sum_i c_i S_{j+i}: c from prod (x - X_i) = x^v + sum c_i x^i
+    let mut poly = vec![1u8]; // highest degree first
+    for x in &xs {
+        let mut np = vec![0u8; poly.len() + 1];
+        for (d, c) in poly.iter().enumerate() {
+            np[d] ^= *c;
+            np[d + 1] ^= gf.mul(*c, *x);
+        }
+        poly = np;
+    }
+    // poly = [1, p_{v-1}, ..., p_0]; S_{j+v} = sum_{i<v} p_i S_{j+i} (char 2)
+    let n_disc = if rng.chance(3, 4) { 1 } else { 2 };
+    for _ in 0..n_disc {
+        let cands = [2 * v, 2 * v + 1, t, t + 1, t + v - 1, t + v, t + v + 1, k - v, k - 1, k];
+        let d = if rng.chance(3, 4) { *rng.pick(&cands) } else { rng.range(1, k) };
+        let d = d.clamp(1, k); // 1-based syndrome index
+        syn[d - 1] ^= rng.nonzero_byte();
+        for j in d..k {
+            // regenerate S_{j+1} (0-based j) from the previous v values, if available
+            if j >= v {
+                let mut acc = 0u8;
+                for i in 0..v {
+                    // coefficient p_i multiplies S_{(j-v)+i}
+                    acc ^= gf.mul(poly[v - i], syn[j - v + i]);
+                }
+                syn[j] = acc;
+            }
+        }
+    }
+    // the genuine pattern's own syndromes are already in `syn` except for the discrepancies: realise the
+    // DIFFERENCE to "no error" entirely in the EC part: find r (degree < k) with r(alpha^j) = syn_j
+    let mut a = vec![0u8; k * k];
+    for j in 0..k {
+        for d in 0..k {
+            a[j * k + d] = gf.alpha_pow((j + 1) * d);
+        }
+    }
+    let r = match gf.solve(&a, &syn, k) {
+        Some(r) => r,
+        None => return false,
+    };
+    for (d, c) in r.iter().enumerate() {
+        if *c != 0 {
+            faults.push(Fault::new("cw_syndrome", Op::CwXor { pos: pos[nb - 1 - d] as u32, mask: *c }));
+        }
+    }
+    true
+}
+
 /// Which syndromes (1-based exponents of alpha) an aligned fault keeps at zero.
 fn aligned_roots(rng: &mut Rng, s: &SizeInfo) -> Vec<usize> {
     let t = s.t();
@@ -1260,14 +1434,32 @@ fn beyond_radius_faults(ctx: &Ctx, rng: &mut Rng, s: &SizeInfo, faults: &mut Vec
         }
         5 => {
             let b = rng.below(s.blocks);
-            ghost_faults(ctx, rng, s, b, faults);
+            match rng.below(4) {
+                0 | 1 => {
+                    ghost_faults(ctx, rng, s, b, faults);
+                }
+                2 => {
+                    syndrome_faults(ctx, rng, s, b, faults);
+                }
+                _ => {
+                    phantom_faults(ctx, rng, s, b, false, faults);
+                }
+            }
         }
         4 => {
             // uniform weights up to n
             let w: Vec<usize> = (0..s.blocks).map(|b| rng.range(0, s.block_len(b))).collect();
             weighted_cw_faults(rng, s, &w, faults);
         }
-        6..=8 => {
+        8 => {
+            let b = rng.below(s.blocks);
+            syndrome_faults(ctx, rng, s, b, faults);
+        }
+        17 => {
+            let b = rng.below(s.blocks);
+            phantom_faults(ctx, rng, s, b, false, faults);
+        }
+        6 | 7 => {
             // density 1: the whole word replaced
             for p in 0..s.n_total() {
                 faults.push(Fault::new("cw_replace", Op::CwSet { pos: p as u32, val: rng.byte() }));
@@ -1275,7 +1467,7 @@ fn beyond_radius_faults(ctx: &Ctx, rng: &mut Rng, s: &SizeInfo, faults: &mut Vec
         }
         9 => burst_faults(rng, s, None, faults),
         10 => data_module_faults(ctx, rng, s, None, faults),
-        11..=17 => {
+        11..=16 => {
             // aligned damage: a chosen set of syndromes stays consistent, the rest does not
             let b = rng.below(s.blocks);
             let roots = aligned_roots(rng, s);
@@ -1360,7 +1552,14 @@ fn gen_c03_faults(ctx: &Ctx, rng: &mut Rng, s: &SizeInfo, faults_out: &mut Vec<F
             weighted_cw_faults(rng, s, &w, &mut faults);
         }
         10 | 11 => burst_faults(rng, s, Some(s.t()), &mut faults),
-        12 | 13 => {
+        13 => {
+            let b = rng.below(s.blocks);
+            if !phantom_faults(ctx, rng, s, b, true, &mut faults) {
+                let w = bounded_weights(rng, s);
+                weighted_cw_faults(rng, s, &w, &mut faults);
+            }
+        }
+        12 => {
             if !cancel_faults(ctx, rng, s, &mut faults) {
                 let w = bounded_weights(rng, s);
                 weighted_cw_faults(rng, s, &w, &mut faults);
